@@ -2089,8 +2089,34 @@ func (e *Exec) guardCheck(p *Ptr, x *ssa.FieldAddr) {
 	}
 	sn := st.Obj().Name()
 	fld := st.Underlying().(*types.Struct).Field(x.Field).Name()
+	if x.Pos().IsValid() {
+		if fn := e.eng.fset.Position(x.Pos()).Filename; strings.HasPrefix(fn[strings.LastIndex(fn, "/")+1:], "zz_vx_") {
+			return // the harness's own accesses (set-up, observation) are not the code under test
+		}
+	}
 	for _, g := range e.guards {
 		if g.typ != sn || g.field != fld {
+			continue
+		}
+		if g.mux == "@atomic" {
+			// the field may only be touched through sync/atomic: every use of its address is an argument of a sync/atomic function
+			ok := true
+			if refs := x.Referrers(); refs != nil {
+				for _, r := range *refs {
+					c, isCall := r.(*ssa.Call)
+					callee := (*ssa.Function)(nil)
+					if isCall {
+						callee = c.Call.StaticCallee()
+					}
+					if callee == nil || callee.Pkg == nil || callee.Pkg.Pkg.Path() != "sync/atomic" {
+						ok = false
+					}
+				}
+			}
+			e.lockLog = append(e.lockLog, fmt.Sprintf("access %s.%s atomic=%v at %s", sn, fld, ok, e.eng.pos(x.Pos())))
+			if !ok {
+				e.fail("lock-discipline", fmt.Sprintf("%s.%s accessed without sync/atomic", sn, fld), x.Pos(), e.tb.True())
+			}
 			continue
 		}
 		// find mutex field index
